@@ -90,11 +90,207 @@ func judged(c Case) *ev.Verdict {
 func registerAll() {
 	ev.Register("projects", judged)
 	ev.Register("grid", oracle)
+	ev.Register("spellings", spellingOracle)
 }
 
 func TestPropProjects(t *testing.T) {
 	registerAll()
 	ev.Rapid(t, "projects", ev.N(3000, 40000), func(t *rapid.T) Case { return Case{P: genProject(t)} }, judged)
+}
+
+// decimalLiterals: -?d{1,n}(\.d{1,n})? over the given digits (no superfluous leading zeros)
+func decimalLiterals(digits string, n int) []string {
+	var ints, fracs []string
+	var rec func(cur string, left int, out *[]string, frac bool)
+	rec = func(cur string, left int, out *[]string, frac bool) {
+		if cur != "" {
+			*out = append(*out, cur)
+		}
+		if left == 0 {
+			return
+		}
+		for _, d := range digits {
+			if !frac && cur == "0" {
+				continue
+			}
+			rec(cur+string(d), left-1, out, frac)
+		}
+	}
+	rec("", n, &ints, false)
+	rec("", n, &fracs, true)
+	var out []string
+	for _, sign := range []string{"", "-"} {
+		for _, i := range ints {
+			out = append(out, sign+i)
+			for _, f := range fracs {
+				out = append(out, sign+i+"."+f)
+			}
+		}
+	}
+	return out
+}
+
+// bounded-exhaustive boundary grid: every small decimal as example x as bound x min/max x exclusivity;
+// every short string x length limits; every item count x item limits
+func TestPropGrid(t *testing.T) {
+	registerAll()
+	ev.KeepFirst("grid")
+	lits := decimalLiterals("019", 1)
+	if ev.Thorough() {
+		lits = decimalLiterals("0159", 2)
+	}
+	var n, nt, bad int64
+	idx := 0
+	judge := func(node *model.Node, boundary bool) {
+		c := Case{P: &model.Project{Root: node}}
+		n++
+		if boundary {
+			nt++
+			if nt%50000 == 1 {
+				ev.Sample("grid", c.P.Text(nil))
+			}
+		}
+		if v := oracle(c); v != nil && ev.Report("grid", c, v) {
+			bad++
+		}
+	}
+	for _, ex := range lits {
+		kind := "integer"
+		if strings.Contains(ex, ".") {
+			kind = "float"
+		}
+		for _, b := range lits {
+			idx++
+			if !ev.Mine(idx) {
+				continue
+			}
+			eq := ex == b || strings.TrimLeft(ex, "-") == strings.TrimLeft(b, "-")
+			for _, rule := range []string{"min", "max"} {
+				judge(model.Scalar(kind, ex, model.R(rule, model.Num(b))), eq)
+				exName := "exclusiveMinimum"
+				if rule == "max" {
+					exName = "exclusiveMaximum"
+				}
+				judge(model.Scalar(kind, ex, model.R(rule, model.Num(b)), model.R(exName, model.Bool(true))), eq)
+			}
+		}
+	}
+	strs := []string{""}
+	alpha := []string{"a", "\\n", "\\\"", "Z"}
+	for l := 1; l <= 3; l++ {
+		var next []string
+		for _, s := range strs {
+			if len(strings.ReplaceAll(strings.ReplaceAll(s, "\\n", "n"), "\\\"", "q")) == l-1 {
+				for _, a := range alpha {
+					next = append(next, s+a)
+				}
+			}
+		}
+		strs = append(strs, next...)
+	}
+	for _, s := range strs {
+		idx++
+		if !ev.Mine(idx) {
+			continue
+		}
+		for lim := 0; lim <= 4; lim++ {
+			for _, rule := range []string{"minLength", "maxLength"} {
+				judge(model.Scalar("string", `"`+s+`"`, model.R(rule, model.Num(fmt.Sprint(lim)))), true)
+			}
+		}
+	}
+	for cnt := 1; cnt <= 3; cnt++ {
+		for lim := 0; lim <= 4; lim++ {
+			idx++
+			if !ev.Mine(idx) {
+				continue
+			}
+			for _, rule := range []string{"minItems", "maxItems"} {
+				a := model.Arr(model.R(rule, model.Num(fmt.Sprint(lim))))
+				for i := 0; i < cnt; i++ {
+					a.Item(model.Scalar("integer", fmt.Sprint(i)))
+				}
+				judge(a, true)
+			}
+		}
+	}
+	ev.Count("grid", n)
+	ev.NonTrivialEnum("grid", nt)
+	ev.Exhaustive("grid", fmt.Sprintf("%d decimal literals as example x as bound x {min, max} x {inclusive, exclusive}; %d strings of length <= 3 (with escapes) x minLength/maxLength 0..4; item counts 1..3 x minItems/maxItems 0..4", len(lits), len(strs)))
+	if bad > 0 {
+		t.Errorf("VIOLATION-CANDIDATE grid: %d", bad)
+	}
+}
+
+// Spelling is a rule set and a literal for the metamorphic relation: the verdict must not depend on
+// whether the rules are written on the example, inside a one-real-alternative `or`, or behind a type.
+type Spelling struct {
+	Lit   string       `json:"lit"`
+	Kind  string       `json:"kind"`
+	Rules []model.Rule `json:"rules"`
+}
+
+func spellingOracle(sp Spelling) *ev.Verdict {
+	inline := &model.Project{Root: &model.Node{Kind: sp.Kind, Lit: sp.Lit, Rules: sp.Rules}}
+	res := rules.Evaluate(inline)
+	if len(res.Ambiguous) > 0 {
+		return nil
+	}
+	tn := sp.Kind
+	for _, r := range sp.Rules {
+		if r.Name == "precision" {
+			tn = "decimal"
+		}
+	}
+	set := append([]model.Rule{model.R("type", model.Str(tn))}, sp.Rules...)
+	impossible := model.Set(model.R("type", model.Str("boolean")))
+	if sp.Kind == "boolean" {
+		impossible = model.Set(model.R("type", model.Str("integer")), model.R("min", model.Num("1000000")))
+	}
+	viaOr := &model.Project{Root: &model.Node{Kind: sp.Kind, Lit: sp.Lit, Rules: []model.Rule{model.R("or", model.List(model.Set(set...), impossible))}}}
+	viaType := &model.Project{Root: model.Obj().Add("v", &model.Node{Kind: sp.Kind, Lit: sp.Lit, Rules: []model.Rule{model.R("type", model.Str("@t"))}}),
+		Types: []model.Type{{Name: "@t", Node: &model.Node{Kind: sp.Kind, Lit: sp.Lit, Rules: sp.Rules}}}}
+	// the type's own example is the same literal, so "accepted" means the same in all three spellings
+	var verdicts []bool
+	var texts []string
+	for _, p := range []*model.Project{inline, viaOr, viaType} {
+		o := sut.Observe(p.Text(nil))
+		if len(o.Escapes) > 0 {
+			return ev.V("panic:"+o.Escapes[0].Op, "%s panicked: %s\n%s", o.Escapes[0].Op, o.Escapes[0].Value, p.Text(nil))
+		}
+		verdicts = append(verdicts, o.Check == nil && len(o.AddErr) == 0)
+		texts = append(texts, p.Text(nil).String())
+	}
+	for _, r := range sp.Rules {
+		// const / nullable / enum are not admitted inside an or rule-set or beside a type reference in
+		// the same way: only plain value rules take part in this relation
+		if r.Name == "const" || r.Name == "nullable" || r.Name == "enum" || r.Name == "or" || r.Name == "type" {
+			return nil
+		}
+	}
+	if verdicts[0] != verdicts[1] {
+		return ev.V("spelling:inline-vs-or", "the same rules accept=%v inline but accept=%v inside an or rule-set\n%s\n---\n%s", verdicts[0], verdicts[1], texts[0], texts[1])
+	}
+	if verdicts[0] != verdicts[2] {
+		return ev.V("spelling:inline-vs-type", "the same rules accept=%v inline but accept=%v behind a user type\n%s\n---\n%s", verdicts[0], verdicts[2], texts[0], texts[2])
+	}
+	return nil
+}
+
+func TestPropSpellings(t *testing.T) {
+	registerAll()
+	ev.Rapid(t, "spellings", ev.N(1500, 15000), func(t *rapid.T) Spelling {
+		n := gen.Scalar(t, gen.ScalarOpts{NoRefs: true}, "sp")
+		return Spelling{Lit: n.Lit, Kind: n.Kind, Rules: n.Rules}
+	}, func(sp Spelling) *ev.Verdict {
+		if len(sp.Rules) > 0 {
+			ev.NonTrivial("spellings", sp.Lit+fmt.Sprint(sp.Rules))
+			if ev.WantSample("spellings") {
+				ev.Sample("spellings", sp)
+			}
+		}
+		return spellingOracle(sp)
+	})
 }
 
 func TestPropRegressions(t *testing.T) {
